@@ -330,9 +330,9 @@ macro_rules! c03_proof {
         }
     };
 }
-c03_proof!(c03_mania_pgradual_n0, 0, 0, 6);
-c03_proof!(c03_mania_pgradual_n2, 2, 1, 6);
-c03_proof!(c03_mania_pgradual_n3, 3, 2, 7);
+c03_proof!(c03_mania_pgradual_n0, 0, 0, 10);
+c03_proof!(c03_mania_pgradual_n2, 2, 1, 10);
+c03_proof!(c03_mania_pgradual_n3, 3, 2, 10);
 
 // known findings, re-derived on every run (must fail exactly the listed assertion)
 s1_proof!(kf_mania_nth_beyond_end, 2, 1, 6, 0, 1);
